@@ -75,6 +75,26 @@ var augCheck = &core.Check{Name: "c05/aug", Quick: 1500, Thorough: 120000, Fn: f
 			gotKeys = append(gotKeys, ref.BitsFromBytes(k[:], 256))
 			gotVals = append(gotVals, uint32(h.Values()[i]))
 		}
+		// the entry counter of block message descriptors walks the same tree without decoding the values
+		for _, out := range []bool{false, true} {
+			fresh, err := boc.DeserializeBoc(data)
+			if err != nil {
+				return fmt.Errorf("HARNESS: %v", err)
+			}
+			var extra tlb.BlockExtra
+			var cnt int
+			if out {
+				extra.OutMsgDescrCell = *fresh[0]
+				cnt, err = extra.OutMsgDescrLength()
+			} else {
+				extra.InMsgDescrCell = *fresh[0]
+				cnt, err = extra.InMsgDescrLength()
+			}
+			if err != nil || cnt != len(model) {
+				return fmt.Errorf("BlockExtra message-descriptor length (out=%v) of a valid HashmapAugE 256 = %d, %v; the dictionary holds %d entries\nBOC %x", out, cnt, err, len(model), data)
+			}
+		}
+		c.Class("entry counter compared")
 	} else {
 		var h tlb.HashmapAugE[tlb.Uint16, tlb.Uint32, tlb.Uint8]
 		if err := tlb.NewDecoder().Unmarshal(cells[0], &h); err != nil {
